@@ -58,6 +58,7 @@ DAILY_BASE = {
     "gaps":  ("2019-01-01", 365, TZ, CURVE_A, 1.0),
     "poor":  ("2019-01-01", 365, TZ, None, 0.0),
     "east":  ("2019-01-01", 365, TZ_OTHER, CURVE_A, 1.0),
+    "tgaps": ("2019-01-01", 365, TZ, CURVE_A, 1.0),      # temperature missing for short spells (hourly: 3 afternoon hours on 60 days; daily: 12 days), usage complete
 }
 # weather id -> (start, days, tz)
 REPORT_WX = {
@@ -67,7 +68,17 @@ REPORT_WX = {
     "wweek":  ("2020-03-05", 7, TZ),        # contains the spring-forward day
     "wday":   ("2020-08-14", 1, TZ),
     "weast":  ("2020-01-01", 366, TZ_OTHER),
+    "wgap":   ("2020-04-01", 61, TZ),       # weather feed with short gaps (hourly: 3 hours every 36; daily: every 11th day)
 }
+
+
+def weather_gaps(name, T, hourly):
+    if name != "wgap":
+        return T
+    T = np.array(T, dtype=float)
+    pos = np.arange(len(T))
+    T[((pos % 36) < 3) & (pos > 40) if hourly else (pos % 11 == 5)] = np.nan
+    return T
 
 
 def partnan_mask(n):
@@ -112,7 +123,7 @@ def ghi_series(idx, tag):
     return sun * (0.6 + 0.4 * _rng("G" + tag).random(len(idx)))
 
 
-def build(fam, kind, name, obs_variant="orig", ghi=False):
+def build(fam, kind, name, obs_variant="orig", ghi=False, supp=False):
     """Return (frame the caller owns, constructor kwargs).  fam in daily|billing|hourly|caltrack."""
     tag = "%s/%s" % (fam, name)
     if fam in ("daily", "billing"):
@@ -125,10 +136,14 @@ def build(fam, kind, name, obs_variant="orig", ghi=False):
                 obs = daily_usage(T, idx, curve, noise, tag)
             if name == "gaps":
                 obs[40:95] = np.nan
+            if name == "tgaps":
+                T = T.copy()
+                T[np.arange(days) % 30 == 7] = np.nan
         else:
             start, days, tz = REPORT_WX[name]
             idx, T = daily_weather(start, days, tz, "r" + name)
             obs = _apply_obs(daily_usage(T, idx, CURVE_A, 1.0, "r" + tag) * 0.85, obs_variant, tag)
+            T = weather_gaps(name, T, False)
         cols = {"temperature": T}
         if obs is not None:
             cols["observed"] = obs
@@ -144,16 +159,28 @@ def build(fam, kind, name, obs_variant="orig", ghi=False):
                 obs = hourly_usage(T, idx, hc, 0.1, tag)
             if name == "gaps":
                 obs[40 * 24:95 * 24] = np.nan
+            if name == "tgaps":
+                T = T.copy()
+                hr = idx.hour.to_numpy()
+                dn = np.arange(len(idx)) // 24
+                T[(dn % 6 == 2) & (hr >= 13) & (hr <= 15)] = np.nan
         else:
             start, days, tz = REPORT_WX[name]
             idx, T = hourly_weather(start, days, tz, "r" + name)
             obs = _apply_obs(hourly_usage(T, idx, HCURVE_A, 0.1, "r" + tag) * 0.85, obs_variant, tag)
+            T = weather_gaps(name, T, True)
         cols = {"temperature": T}
         if ghi:
             g = ghi_series(idx, ("b" if kind == "baseline" else "r") + name)
             cols["ghi"] = g
             if obs is not None:
                 obs = obs - 0.002 * g          # a building with PV: usage falls with irradiance
+        if supp:            # supplemental time series a user may name in the hourly settings (occupancy proxies)
+            hr = idx.hour.to_numpy()
+            dw = idx.dayofweek.to_numpy()
+            cols["sup_c"] = ((hr > 7) & (hr < 19) & (dw < 5)).astype(float)
+            cols["sup_a"] = np.sin(2 * np.pi * hr / 24.0)
+            cols["sup_b"] = (dw >= 5).astype(float) * 0.5
         if obs is not None:
             cols["observed"] = obs
         return pd.DataFrame(cols, index=idx), {"is_electricity_data": True}
